@@ -140,3 +140,11 @@ reg("C13", level="exploration", overlay="world",
     variants=[{"name": "main"}, {"name": "mockkeys", "env": {"USE_MOCK_KEYS": "true"}}],
     assumptions=["DRKeys come from a fake daemon using the library's own derivation (variant mockkeys: the project's USE_MOCK_KEYS switch); a real DRKey service is not available",
                  "hop-field MACs are not validated by an end host and are arbitrary here"])
+
+reg("C08", level="fault_enumeration", overlay="world",
+    technique="exhaustive enumeration of a finite structure-aware mutation space against every real receive loop, handler and client over an in-memory network, sentinel after each input",
+    level_text="Totality over all byte strings cannot be enumerated; decided here is totality over a stated finite mutation space (every truncation / byte value / 16-bit field of every valid message of every protocol, plus small TLV grammars), fed to the real listeners, the NTS-KE handler behind a real TLS session, the real clients and the decoders. A panic, a receive loop that does not return to its read, an unanswered sentinel or a client call that does not return is a violation.",
+    budget={"quick": 240, "thorough": 1800}, workers={"quick": 13, "thorough": 13},
+    variants=[{"name": "main"}, {"name": "mockkeys", "env": {"USE_MOCK_KEYS": "true"}, "args": ["-vtarget", "listeners"], "workers": 6}],
+    assumptions=["arbitrary multi-site garbage beyond the grammars is not covered", "the QUIC listener (real quic-go transport) is outside the explored system",
+                 "resource exhaustion (unbounded cookie records in one NTS-KE message) is not covered", "a 60 s real-time watchdog detects spinning loops"])
